@@ -9,12 +9,14 @@ git -C /repo worktree add --detach "$W" HEAD >/dev/null 2>&1 || { echo "worktree
 trap 'git -C /repo worktree remove --force "$W" >/dev/null 2>&1' EXIT
 cd "$W"
 out="$M/verified.txt"; : > "$out"
-cp "$M/demo_test.go" ./zz_demo_${ID//-/_}_test.go
-if go test -vet=off -count=1 -run 'C[0-9]|Mutant|Demo' . >/tmp/vs-$ID.clean.log 2>&1; then echo "demo on clean tree: PASS" >> "$out"; else echo "demo on clean tree: FAIL (unexpected)" >> "$out"; tail -5 /tmp/vs-$ID.clean.log >> "$out"; fi
-rm -f ./zz_demo_*_test.go
+D=$(python3 -c "import json,sys; print(json.load(open(sys.argv[1])).get('demo_dir','.'))" "$M/meta.json" 2>/dev/null || echo .)
+[ -z "$D" ] && D=.
+cp "$M/demo_test.go" ./$D/zz_demo_${ID//-/_}_test.go
+if go test -vet=off -count=1 -run 'C[0-9]|Mutant|Demo' ./$D >/tmp/vs-$ID.clean.log 2>&1; then echo "demo on clean tree: PASS" >> "$out"; else echo "demo on clean tree: FAIL (unexpected)" >> "$out"; tail -5 /tmp/vs-$ID.clean.log >> "$out"; fi
+rm -f ./$D/zz_demo_*_test.go
 if ! git apply "$M/patch.diff" 2>>"$out"; then echo "patch does not apply" >> "$out"; exit 1; fi
 if go build ./... >>"$out" 2>&1; then echo "build with patch: OK" >> "$out"; else echo "build with patch: FAIL" >> "$out"; exit 1; fi
 if go test -vet=off -count=1 ./... >/tmp/vs-$ID.suite.log 2>&1; then echo "existing suite with patch: PASS" >> "$out"; else echo "existing suite with patch: FAIL" >> "$out"; tail -5 /tmp/vs-$ID.suite.log >> "$out"; fi
-cp "$M/demo_test.go" ./zz_demo_${ID//-/_}_test.go
-if go test -vet=off -count=1 -run 'C[0-9]|Mutant|Demo' . >/tmp/vs-$ID.mut.log 2>&1; then echo "demo with patch: PASS (unexpected)" >> "$out"; else echo "demo with patch: FAIL (as required)" >> "$out"; fi
+cp "$M/demo_test.go" ./$D/zz_demo_${ID//-/_}_test.go
+if go test -vet=off -count=1 -run 'C[0-9]|Mutant|Demo' ./$D >/tmp/vs-$ID.mut.log 2>&1; then echo "demo with patch: PASS (unexpected)" >> "$out"; else echo "demo with patch: FAIL (as required)" >> "$out"; fi
 cat "$out"
